@@ -42,7 +42,7 @@ def run_unit(job):
             res = vcgen.verify_unit(repo, reg, name, timeout_ms, inst)
             out = dict(kind=kind, name=res.unit, status=res.status, message=res.message, paths=res.paths,
                        inlined=res.inlined, node_kinds=res.node_kinds, vacuity=res.vacuity, src=res.src,
-                       obligations=[], gen_time=res.time)
+                       obligations=[], gen_time=res.time, fingerprint=getattr(res, "fingerprint", None))
             axioms = res.ex.global_axioms if hasattr(res, "ex") else []
             c = reg.get(name)
             for ob in res.obligations:
@@ -188,6 +188,8 @@ def main():
     ap.add_argument("--replay", default=None)
     ap.add_argument("--jobs", type=int, default=16)
     ap.add_argument("-v", action="store_true")
+    ap.add_argument("--write-baseline", action="store_true",
+                    help="record, per unit, the source fingerprint and the clauses discharged (only on a fully green run)")
     args = ap.parse_args()
     os.environ["PYVC_TIER"] = args.tier
     from pyvc import report
